@@ -61,7 +61,16 @@ Two DIFFERENT changes (call them {pid}-{k1} and {pid}-{k2}) to the library's non
    results that are modified by the caller and re-read later, slice arguments with spare capacity, input buffers that are
    reused and changed in place, idle periods longer than any time constant in the source code, listener events interleaved
    with requests, error-callback return values, pauses injected between the network driver and the decoding code, degenerate
-   timeouts, very long argument lists, numbers that wrap modulo 2^8..2^64, decoding into variables that were used before:
+   timeouts, very long argument lists, numbers that wrap modulo 2^8..2^64, decoding into variables that were used before,
+   calls that wait seconds for a shared bind port while carrying clock-derived arguments, controllers that turn slow after
+   many prompt answers, wrong-function replies late in the timeout window, the reply to the previous call arriving again,
+   clients warmed up by earlier replies that echo the very arguments of the next call, listeners that are running (and have
+   heard events from elsewhere) while requests are routed, Listen called twice, callbacks that stop the listener and wait,
+   results carrying well-known shared addresses (0.0.0.0, 255.255.255.255) that the caller modifies in place, the
+   configuration re-read through DeviceList after the caller changed its own data, controllers listed twice, writes through
+   decoded pointer fields, process time zones without abbreviation or with odd ones, controller names in non-Latin scripts,
+   dates that wrap a time of day in another location, replies that are byte-identical to their request, equal bind and
+   destination ports, message layouts embedding structs of unexported types:
    look for what such testing still would NOT reach.
 
 Changes of earlier rounds - do NOT repeat these or close variants of them; find a different mechanism, a different
